@@ -27,9 +27,13 @@ type guardRule struct {
 	field string // substring of the heap key, e.g. "EntryMetadata" + ".Expires"
 	guard string // "shard" | "mu:<pattern>" | "confined"
 	text  string
+	// volatile: other threads change the field under its guard, so whatever was
+	// read before the guard was acquired is forgotten when it is acquired
+	volatile bool
 }
 
 func (x *Exec) loadDirectives() {
+	x.loadSumRules()
 	for _, d := range x.C.Directives {
 		switch d.Kind {
 		case "lock":
@@ -41,10 +45,14 @@ func (x *Exec) loadDirectives() {
 				x.lockRules = append(x.lockRules, r)
 			}
 		case "field":
-			// field <pattern> guarded_by <guard>
+			// field <pattern> guarded_by <guard> [volatile]
 			f := strings.Fields(d.Text)
 			if len(f) >= 3 && f[1] == "guarded_by" {
-				x.guardRules = append(x.guardRules, guardRule{field: f[0], guard: f[2], text: d.Text})
+				g := guardRule{field: f[0], guard: f[2], text: d.Text}
+				if len(f) >= 4 && f[3] == "volatile" {
+					g.volatile = true
+				}
+				x.guardRules = append(x.guardRules, g)
 			}
 		}
 	}
@@ -70,6 +78,9 @@ func (x *Exec) lockLevel(desc string) (int, bool) {
 func (x *Exec) lockIdentity(p PtrV) (*Term, string) {
 	if p.Addr.Op == "app" && p.Addr.Name == "elemaddr" {
 		return p.Addr, "elem:" + p.Prefix
+	}
+	if strings.HasPrefix(p.Prefix, "elem:") {
+		return p.Addr, p.Prefix
 	}
 	return App("lockid_"+sanitize(p.Prefix), SInt, p.Addr), p.Prefix
 }
@@ -128,12 +139,14 @@ func (x *Exec) lockModel(fr *Frame, st *State, pc *preparedCall, name string, k 
 			_ = why
 		}
 		st.held = append(st.held, heldLock{ID: id, Level: level, Write: op == "lock", Desc: desc})
+		x.havocVolatile(st, desc)
 		k(st, nil)
 	case "trylock", "tryrlock":
 		b := Var(x.fresh("trylock"), SBool)
 		st2 := st.clone()
 		st.assumeRaw(b)
 		st.held = append(st.held, heldLock{ID: id, Level: level, Write: op == "trylock", Desc: desc})
+		x.havocVolatile(st, desc)
 		st.trace = append(st.trace, "trylock:ok")
 		k(st, []Value{BoolV{TTrue}})
 		st2.assumeRaw(Not(b))
@@ -208,4 +221,27 @@ func (x *Exec) noBlock(fr *Frame, st *State, n ast.Node, what string) {
 	}
 	x.oblige(fr, st, "noblock", what+"@"+x.siteLabel(n), BoolLit(len(st.held) == 0), n)
 	x.Obls[len(x.Obls)-1].Tag = "C14"
+}
+
+// havocVolatile applies the lock-acquisition rule to the fields declared
+// volatile under the acquired kind of lock: what was known about them before
+// the acquisition is forgotten.
+func (x *Exec) havocVolatile(st *State, desc string) {
+	if !strings.HasPrefix(desc, "elem:") {
+		return
+	}
+	for _, g := range x.guardRules {
+		if !g.volatile || g.guard != "shard" {
+			continue
+		}
+		parts := strings.SplitN(g.field, ".", 2)
+		for _, key := range st.heapKeys() {
+			if strings.Contains(key, parts[0]) && (len(parts) < 2 || strings.HasSuffix(key, "."+parts[1])) {
+				old := st.heap[key]
+				st.heap[key] = Var(x.fresh("Hv_"+sanitize(key)), old.Sort)
+			}
+		}
+		x.lazyHavoc(st, "."+parts[len(parts)-1])
+	}
+	st.setGhostArr("jexp", Var(x.fresh("G_jexp"), ArrOf(SInt)))
 }
